@@ -251,6 +251,7 @@ func annotationsMalformed(doc any) bool {
 type c17Env struct {
 	dir      string
 	external *schema.Schema
+	seq      uint64
 }
 
 func newC17Env(t testing.TB) *c17Env {
@@ -375,6 +376,48 @@ func (e *c17Env) check(t fataler, doc any) (msg string, info map[string]bool) {
 				}
 			}
 		}
+		if msg != "" {
+			return
+		}
+		// the package-level functions work on the active schema (schema.Set): the same verdicts, for every
+		// choice of active schema, in any order of choices (the previous choice must not leak into the next)
+		defer schema.Set(schema.BuiltinSchema())
+		var nilSchema *schema.Schema
+		none, _ := schema.Load("none")
+		active := []struct {
+			name    string
+			s       *schema.Schema
+			decides bool
+		}{{"builtin", schema.BuiltinSchema(), true}, {"nil", nilSchema, false}, {"external copy", e.external, true}, {"none", none, false}, {"nil", nilSchema, false}}
+		start := int(e.seq % 5)
+		e.seq++
+		for i := range active {
+			cfg := active[(start+i)%len(active)]
+			schema.Set(cfg.s)
+			type result struct {
+				name string
+				err  error
+			}
+			rs := []result{{"ValidateData(json)", schema.ValidateData(jsonData)}, {"ValidateFile(.json)", schema.ValidateFile(jp)},
+				{"ValidateReader(json)", schema.ValidateReader(bytes.NewReader(jsonData))}}
+			_, rerr := schema.ReadAndValidate(bytes.NewReader(jsonData))
+			rs = append(rs, result{"ReadAndValidate(json)", rerr})
+			if yamlOK {
+				rs = append(rs, result{"ValidateData(yaml)", schema.ValidateData(yamlData)}, result{"ValidateFile(.yaml)", schema.ValidateFile(yp)})
+			}
+			rs = append(rs, result{"Get().ValidateData(json)", schema.Get().ValidateData(jsonData)})
+			for _, r := range rs {
+				switch {
+				case cfg.decides && !malformed && (r.err == nil) != want:
+					msg = fmt.Sprintf("active schema %s (schema.Set), package-level %s: %s, but draft-07 semantics of the shipped schema files say valid=%v", cfg.name, r.name, verdictStr(r.err), want)
+					return
+				case !cfg.decides && isObj && r.err != nil:
+					msg = fmt.Sprintf("active schema %s (schema.Set), package-level %s rejected a parseable document: %v", cfg.name, r.name, r.err)
+					return
+				}
+			}
+		}
+		info["active-schema-switched"] = true
 	})
 	if perr != nil {
 		return perr.Error(), info
